@@ -729,6 +729,10 @@ class Watcher(object):
             graceful_timeout = self.graceful_timeout
 
         if process.stopping:
+            # another kill_process call is already taking care of this
+            # process: wait until it is done with it
+            while process.stopping:
+                yield tornado_sleep(0.1)
             raise gen.Return(False)
         try:
             logger.debug("%s: kill process %s", self.name, process.pid)
